@@ -262,7 +262,8 @@ impl C09 {
     let res = match guard(|| ec.get_solar_times(lo as isize, hi as isize)) {
       Ok(r) => r,
       Err(e) => {
-        out.fail(env, viol("inverse", "search_panics", case, &k, format!("{} in {}..{}", ec.get_name(), lo, hi), "a list of instants".into(), e));
+        let kk = [("jdn", c.jdn(i)), ("s", s), ("lo", lo), ("hi", hi), ("h", h), ("yp", ec.get_year().get_index() as i64)];
+        out.fail(env, viol("inverse", "search_panics", case, &kk, format!("{} in {}..{}", ec.get_name(), lo, hi), "a list of instants".into(), e));
         return;
       }
     };
@@ -419,6 +420,10 @@ impl Prop for C09 {
               }
             }
           }
+        }
+        if shard == 0 {
+          // witness of KF-C09-inverse-hole-0024 (always re-observed): characters of 0084-01-15 00:00 searched in 24..84
+          run_case(env, out, "inverse", &Case::ints(&[30329, 0, 60, 0]), &ev);
         }
         let total: u32 = env.tier.pick(6_400, 96_000);
         prop_run(env, out, "inverse", total / nshards as u32, shard as u64, inverse_strategy(hi_idx), &ev);
